@@ -52,9 +52,138 @@ def gen_family(rng, variant):
     return rng.choice(['vc', 'vc', 'vc', 'scripted', 'parser', 'linker'])
 
 
+def op_templates():
+    """Every (operation kind x operand class) the alphabet knows, as schedule records with '?' placeholders."""
+    T = []
+    vs = []
+    for e in ('float', 'int', 'bool', 'str', 'none', 'nan', 'longstr'):
+        vs.append({'k': 'scalar', 'e': e})
+    for c in ('list', 'tuple', 'range', 'ndarray'):
+        for ln in ('n', 'n+1', 'n-1', 1, 0):
+            vs.append({'k': 'seq', 'c': c, 'len': ln, 'e': '?'})
+    for rows in ('n', 'n-1', 1):
+        for cols in (1, 2):
+            vs.append({'k': 'nested', 'rows': rows, 'cols': cols, 'e': 'float'})
+    for shp in ('()', '(1,n)', '(n,1)', '(n,2)', '(2,n)', '(1,)', '(1,1)'):
+        vs.append({'k': 'nd', 'shape': shp, 'e': 'float'})
+    for kind in ('setattr', 'setitem'):
+        for v in vs:
+            T.append({'op': kind, 'name': '?', 'value': dict(v)})
+        T.append({'op': kind, 'name': '?unknown', 'value': {'k': 'scalar', 'e': 'float'}})
+    for pos in (0, -1, 'absent'):
+        T.append({'op': 'setitem_label', 'name': '?', 'pos': pos, 'form': 0, 'value': {'k': 'scalar', 'e': '?'}})
+    T.append({'op': 'setitem_label', 'name': '?', 'pos': 0, 'form': 1, 'value': {'k': 'seq', 'c': 'list', 'len': 'n', 'e': '?'}})
+    for a, b, st in ((None, None, None), (0, -1, None), (1, 0, None), (0, 0, None), (None, -1, 2), (0, None, 3), ('absent', None, None), (None, 'absent', None)):
+        for v in ({'k': 'scalar', 'e': '?'}, {'k': 'seq', 'c': 'list', 'len': 'slice', 'e': '?'}, {'k': 'seq', 'c': 'ndarray', 'len': 'n+1', 'e': '?'}):
+            T.append({'op': 'setitem_slice', 'name': '?', 'a': a, 'b': b, 'step': st, 'fa': 0, 'fb': 0, 'value': dict(v)})
+    T.append({'op': 'set_pos', 'name': '?', 'pos': 0, 'value': {'k': 'scalar', 'e': '?'}})
+    T.append({'op': 'set_pos', 'name': '?', 'pos': -1, 'value': {'k': 'scalar', 'e': 'longstr'}})
+    T.append({'op': 'replace_values', 'items': [['?', {'k': 'scalar', 'e': '?'}], ['?', {'k': 'seq', 'c': 'list', 'len': 'n', 'e': '?'}]]})
+    T.append({'op': 'replace_values', 'items': [['?', {'k': 'scalar', 'e': '?'}], ['?', {'k': 'seq', 'c': 'list', 'len': 'n+1', 'e': '?'}]]})
+    T.append({'op': 'replace_values', 'items': [['?', {'k': 'scalar', 'e': '?'}], ['?unknown', {'k': 'scalar', 'e': 'float'}]]})
+    for shp in ('ok', 'rows+1', 'cols+1', 'flat', 'transposed'):
+        T.append({'op': 'set_values', 'value': {'k': 'matrix', 'shape': shp}})
+    for e in ('float', 'int', 'bool'):
+        T.append({'op': 'set_values', 'value': {'k': 'scalar', 'e': e}})
+    for v in ({'k': 'scalar', 'e': 'float'}, {'k': 'scalar', 'e': 'str'}, {'k': 'seq', 'c': 'list', 'len': 'n', 'e': 'int'}, {'k': 'seq', 'c': 'ndarray', 'len': 'n', 'e': 'bool'}, {'k': 'seq', 'c': 'list', 'len': 'n+1', 'e': 'float'}, {'k': 'seq', 'c': 'tuple', 'len': 1, 'e': 'float'}, {'k': 'nested', 'rows': 'n', 'cols': 2, 'e': 'float'}, {'k': 'nested', 'rows': 'n', 'cols': 1, 'e': 'float'}, {'k': 'nd', 'shape': '(n,2)', 'e': 'float'}, {'k': 'scalar', 'e': 'none'}):
+        for dt in (None, 'float', 'int'):
+            T.append({'op': 'add_variable', 'name': '?new', 'value': dict(v), 'dtype': dt})
+    T.append({'op': 'add_variable', 'name': '?dup', 'value': {'k': 'scalar', 'e': 'float'}, 'dtype': None})
+    T.append({'op': 'add_attribute', 'name': 'note0', 'v': 1})
+    T.append({'op': 'add_attribute', 'name': '?dupvar', 'v': 1})
+    for nm in ('zzz0', '?nearmiss', 'eval', 'copy', 'NAMES'):
+        T.append({'op': 'set_attr_plain', 'name': nm, 'v': 3})
+    T.append({'op': 'set_strict', 'v': True})
+    T.append({'op': 'set_strict', 'v': False})
+    for route in ('copy', 'copy.copy', 'deepcopy', 'sibling'):
+        T.append({'op': 'spawn', 'route': route})
+    T.append({'op': 'reindex', 'idx': '?shift', 'as': 'same', 'fill_value': None, 'fills': {}, 'strict': None})
+    T.append({'op': 'get', 'name': '?', 'a': 0, 'b': None, 'step': 2, 'pos': 0, 'form': 0})
+    return T
+
+
+_TEMPLATES = None
+
+
+def generate_pairs(rng, idx, tier):
+    """Systematic stratum: the run index walks every ordered pair of operation templates (short histories exhaustively
+    by operation x operand class); the PRNG only picks the targets, the span and the concrete numbers."""
+    global _TEMPLATES
+    if _TEMPLATES is None:
+        _TEMPLATES = op_templates()
+    T = _TEMPLATES
+    n = rng.randint(1, 6)
+    fam = rng.choice(['vc', 'vc', 'scripted'])
+    spec = {'family': fam, 'span': {'type': rng.choice(spans.TYPES), 'n': n, 'origin': rng.choice([0, 1, 4])}, 'strict': bool(idx % 3 == 0)}
+    g = {'base': 0}
+    names = []
+    ops = []
+    if fam == 'vc':
+        for i, dt in enumerate(('float', 'int', 'bool', 'str')):
+            ops.append({'op': 'add_variable', 'obj': 0, 'name': f'V{i}', 'value': _good_vspec(rng, g, dt), 'dtype': dt})
+            names.append((f'V{i}', dt))
+    else:
+        ms = S.gen_spec(rng, 'solver', tier)
+        ms.pop('mixins', None)
+        ms['lags'] = ms['leads'] = 0
+        ms['span'] = spec['span']
+        ms['init'] = {nm: [rng.choice(S.DYADS) for _ in range(n)] for nm in ms['endo'] + ms['exo']}
+        spec['model'] = ms
+        names = [(nm, 'float') for nm in ms['endo'] + ms['exo']]
+    picks = [T[idx % len(T)], T[(idx // len(T)) % len(T)]]
+    if tier == 'thorough' and rng.random() < 0.3:
+        picks.append(rng.choice(T))
+    for tpl in picks:
+        import copy as _c
+
+        op = _c.deepcopy(tpl)
+        op['obj'] = 0
+        nm, dt = rng.choice(names)
+
+        def fill(v):
+            g['base'] += 7
+            v['base'] = g['base']
+            if v.get('e') == '?':
+                v['e'] = dt
+            if v.get('len') == 'slice':
+                a = op.get('a') if isinstance(op.get('a'), int) else None
+                b = op.get('b') if isinstance(op.get('b'), int) else None
+                a = None if a is None else a % n
+                b = None if b is None else b % n
+                v['len'] = len(RC.resolve_slice(list(range(n)), a, b, op.get('step')))
+
+        if op.get('name') == '?':
+            op['name'] = nm
+        elif op.get('name') == '?dup' or op.get('name') == '?dupvar':
+            op['name'] = nm
+        elif op.get('name') == '?new':
+            op['name'] = f'N{len(ops)}'
+        elif op.get('name') == '?nearmiss':
+            op['name'] = nm + 'x'
+        for key in ('a', 'b', 'pos'):
+            if isinstance(op.get(key), int) and op['op'] != 'set_pos':
+                op[key] = op[key] % n
+        if 'value' in op and isinstance(op['value'], dict):
+            fill(op['value'])
+        if 'items' in op:
+            for it in op['items']:
+                if it[0] == '?':
+                    nm2, dt2 = rng.choice(names)
+                    it[0] = nm2
+                    dt = dt2
+                fill(it[1])
+        if op.get('idx') == '?shift':
+            k = rng.choice([1, 2])
+            op['idx'] = list(range(3 + k, 3 + k + n))
+        ops.append(op)
+    return {'spec': spec, 'ops': ops}
+
+
 def generate(rng, idx, tier, variant):
+    if variant == 'pairs':
+        return generate_pairs(rng, idx, tier)
     fam = gen_family(rng, variant)
-    n = rng.randint(1, 8)
+    n = rng.randint(1, 12 if tier == 'thorough' else 8)
     stype = rng.choice(LINKER_SPANS if fam == 'linker' else spans.TYPES)
     spec = {'family': fam, 'span': {'type': stype, 'n': n, 'origin': rng.choice([0, 1, 3, 7])}, 'strict': rng.random() < 0.25}
     g = {'base': 0, 'names': {0: []}, 'np': 1}
